@@ -51,6 +51,31 @@ static OUT_PATH: Mutex<Option<PathBuf>> = Mutex::new(None);
 /// scratch directories of the current case: removed when the case ends (thorough tiers run 10^5 cases)
 static SCRATCH_DIRS: Mutex<Vec<PathBuf>> = Mutex::new(Vec::new());
 
+/// (property, family, index, seed, tier) of the case in progress, for records written by the watchdog thread
+pub static CUR_CASE: Mutex<(String, String, u64, u64, String)> = Mutex::new((String::new(), String::new(), 0, 0, String::new()));
+
+/// The subject thread burns CPU without issuing a single system call: a busy loop in library code.  The loop cannot
+/// be ended from outside, so the verdict is written straight to the result stream and the worker exits.
+pub fn fatal_spin(cpu_s: f64) -> ! {
+    FATAL.store(true, SeqCst);
+    let c = CUR_CASE.lock().unwrap_or_else(|e| e.into_inner()).clone();
+    if let Some(p) = OUT_PATH.lock().unwrap_or_else(|e| e.into_inner()).clone() {
+        if let Ok(mut f) = std::fs::OpenOptions::new().append(true).open(p) {
+            let case = J::obj().set("property", J::s(&c.0)).set("family", J::s(&c.1)).set("index", J::i(c.2 as i64)).set("seed", J::i(c.3 as i64)).set("tier", J::s(&c.4));
+            let j = J::obj()
+                .set("type", J::s("violation"))
+                .set("signature", J::s(&format!("{}/busy-loop-without-system-calls/{}", c.0, c.1)))
+                .set("what", J::s(&format!("the library call consumed {:.1} s of CPU time without issuing a single system call: it spins forever", cpu_s)))
+                .set("case", case)
+                .set("witness", J::obj().set("events_tail", J::arr_s(&ilog::fmt_tail(&ilog::snapshot(), 20))));
+            let _ = writeln!(f, "{}", j.dump());
+        }
+    }
+    inspect::kill_descendants();
+    unsafe { libc::syscall(libc::SYS_exit_group, 4) };
+    unreachable!()
+}
+
 /// The worker cannot continue (a case hangs without a certificate).  Recorded as inconclusive by the driver.
 pub fn fatal_inconclusive(why: &str) -> ! {
     FATAL.store(true, SeqCst);
@@ -204,6 +229,7 @@ impl Ctx {
                 break;
             }
             self.cur_index = i;
+            *CUR_CASE.lock().unwrap_or_else(|e| e.into_inner()) = (self.prop.clone(), name.to_string(), i, self.seed, if self.quick() { "quick".into() } else { "thorough".into() });
             let mut rng = Rng::new(self.seed, crate::common::fnv(name.as_bytes()), i);
             self.cases += 1;
             self.count(&format!("cases.{}", name), 1);
